@@ -108,6 +108,14 @@ func buildWitnesses() []witness {
 		at(t, cmdPath)["loadControlLimitConstraintsListData"] = map[string]any{}
 	})
 	probe := hx.Zs{opProbe, 1, 77}
+	regress = []witness{
+		{"foreign-function-then-notify", "", append(append([]hx.Zs{}, discovered...), in(validMessage(r, kNotifyForeignFunction, 1, 20)),
+			in(validMessage(r, kNotifyLimits, 1, 21)), in(validMessage(r, kReplyForeignFunction, 1, 22)), in(validMessage(r, kReplyLimits, 1, 23)), probe)},
+		{"reply-with-entity-entry-without-description", "", []hx.Zs{conn, in(discEdit(func(d map[string]any) {
+			ei := d["entityInformation"].([]any)
+			d["entityInformation"] = []any{ei[0], map[string]any{}, ei[1]}
+		})), probe}},
+	}
 	return []witness{
 		{"nil-destination", "spine.(*DeviceLocal).FeatureByAddress", one(edit(read, func(t map[string]any) { delete(at(t, hdrPath), "addressDestination") }))},
 		{"nil-source", "spine.(*DeviceLocal).ProcessCmd", one(edit(read, func(t map[string]any) { delete(at(t, hdrPath), "addressSource") }))},
@@ -171,8 +179,19 @@ func buildWitnesses() []witness {
 	}
 }
 
+// regression inputs that are not refutation witnesses of the unrepaired tree (seeded defects, past disagreements)
+var regress []witness
+
 func mkCorpus(dir string) {
-	for _, w := range buildWitnesses() {
+	ws := buildWitnesses()
+	for _, w := range regress {
+		doc := map[string]any{"note": "C05 regression input (seeded-defect pattern): " + w.name, "history": w.ops}
+		b, _ := json.MarshalIndent(doc, "", " ")
+		if err := os.WriteFile(filepath.Join(dir, "regress-"+w.name+".json"), b, 0o644); err != nil {
+			panic(err)
+		}
+	}
+	for _, w := range ws {
 		_, payload, _ := splitInbound(lastInbound(w.ops))
 		doc := map[string]any{
 			"note":              "C05 refutation witness / regression input; last inbound payload: " + string(payload),
